@@ -46,9 +46,19 @@ var c05Others = []string{"true", "false", "nil"}
 
 var c05BinOps = []string{"+", "-", "*", "/", "%", "&", "|", "<<", ">>", "<", "<=", ">", ">=", "==", "!="}
 
+func isStrLit(x string) bool { return strings.HasPrefix(x, "\"") }
+
+func bigIntLit(x string) bool {
+	n := strings.TrimLeft(x, "(-")
+	return len(n) > 2 && n[0] >= '0' && n[0] <= '9' && !strings.ContainsAny(x, ".e/")
+}
+
 func c05Program(a, b string) string {
 	var parts []string
 	for _, op := range c05BinOps {
+		if op == "*" && isStrLit(a) && bigIntLit(b) {
+			continue // string repetition by a huge count: an astronomically large allocation (outside C05)
+		}
 		parts = append(parts, fmt.Sprintf("((va %s vb) ?? \"E\")", op))
 	}
 	parts = append(parts, `((-va) ?? "E")`, `((^va) ?? "E")`, `((!va) ?? "E")`)
@@ -97,7 +107,13 @@ func c05Product(r *Rand, limit int) []string {
 		if r.Chance(1, 8) {
 			return []string{"-", "^", "!"}[r.Intn(3)] + "(" + tree(d-1) + ")"
 		}
-		return "(" + tree(d-1) + " " + c05BinOps[r.Intn(len(c05BinOps))] + " " + tree(d-1) + ")"
+		op := c05BinOps[r.Intn(len(c05BinOps))]
+		if op == "*" {
+			// no string repetition inside trees: the result sizes multiply
+			nums := append(append([]string{}, c05Ints...), c05Floats...)
+			return "(" + nums[r.Intn(len(nums))] + " * " + nums[r.Intn(len(nums))] + ")"
+		}
+		return "(" + tree(d-1) + " " + op + " " + tree(d-1) + ")"
 	}
 	for len(out) < limit {
 		out = append(out, "("+tree(2+r.Intn(3))+") ?? \"E\"")
